@@ -5,7 +5,7 @@ from ..facts import mname, term_callee
 from ..mir import switch_conds, cmp_true_false_edges
 from ..dataflow import (call_of, cond_at, const_of, message_creations, forward_flow, two_var_table)
 from ..guards import HelperGuard, site_guarded
-from .common import storage_calls, arg_origins, ok_value_blocks, must_pass_through
+from .common import storage_calls, arg_origins, ok_value_blocks, must_pass_through, nonzero_edges
 
 CEIL = re.compile(r"(_ceil|::ceil|to_uint_ceil|div_ceil|mul_ceil)$")
 
@@ -220,11 +220,11 @@ def check_v4_min_liquidity(ctx, model, p, rule, const_name="MINIMUM_LIQUIDITY_AM
     # zero share rejected
     zs = False
     for b, c, _ in switch_conds(v):
-        if c.kind == "call" and c.callee.endswith("Uint128::is_zero"):
-            a0 = v.origins_of_operand(c.term["args"][0], at=v.at_term(c.block), taint=True)
+        nz = nonzero_edges(v, b, c)
+        if nz is not None:
+            a0 = v.origins_of_operand(nz[0], at=nz[1], taint=True)
             if any(o.kind == "item" and o.a.endswith(const_name) for o in a0) or any(o.kind == "call" and ("checked_sub" in o.a or "saturating_sub" in o.a) for o in a0):
-                te, fe = cmp_true_false_edges(v, b, c)
-                bad = fe if c.neg else te
+                bad = nz[3]
                 r = set()
                 for (_, tgt) in bad:
                     r |= v.reachable(tgt)
